@@ -497,6 +497,26 @@ func runC10(ctx *Ctx) *Report {
 			cases = append(cases, massiveCase{Kind: "massive", Op: op, Doc: hx(doc), Text: "<40 roots>", Blocks: forestSizes(big), Sched: int64(7000 + s), Fmt: fmtDefault, Exts: []string{".go"}, Procs: []int{0, 1, 2, 16}[s%4]})
 		}
 	}
+	// many heading roots with list rows three and four levels deep, in several notations: what a worker learns
+	// about the indentation stays true while other workers parse headings
+	{
+		var hd []*Tree
+		for i := 0; i < 30; i++ {
+			t := &Tree{Name: fmt.Sprintf("h%d", i)}
+			for j := 0; j < 6; j++ {
+				t.Kids = append(t.Kids, &Tree{Name: fmt.Sprintf("a%d", j), Kids: []*Tree{{Name: "b", Kids: []*Tree{{Name: "c", Kids: []*Tree{{Name: "d.go"}}}, {Name: "c2"}}}, {Name: "b2"}}})
+			}
+			hd = append(hd, t)
+		}
+		for s, si := range []int{10, 12, 20, 22} {
+			doc := spell(hd, sps[si])
+			for r := 0; r < 2 || (ctx.Thorough && r < 10); r++ {
+				for _, op := range []string{"text", "walk", "json"} {
+					cases = append(cases, massiveCase{Kind: "massive", Op: op, Doc: hx(doc), Text: "<30 heading roots, 4 levels>", Blocks: forestSizes(hd), Sched: int64(7500 + 10*s + r), Fmt: fmtDefault, Procs: []int{0, 16, 4}[(s+r)%3]})
+				}
+			}
+		}
+	}
 	// roots whose rendering exceeds any internal buffer (> 4 KiB per root), many at once
 	var fat []*Tree
 	for i := 0; i < 24; i++ {
